@@ -1,12 +1,22 @@
 import CoapVerif.Lemmas.SendQueue
+import CoapVerif.Lemmas.TimerSim
+import CoapVerif.Lemmas.SchedInv
+import CoapVerif.Lemmas.Conserve
+import CoapVerif.Lemmas.PduFixed
 /-
 C06 — the retransmission queue: every pending message is (re)transmitted on the RFC 7252 §4.2 schedule and
 ends in exactly one outcome.
 
-  S = Coap.Spec.SQ          (absolute deadlines, ordered; CoapVerif/Spec/SendQueue.lean)
-  M = Coap.SQ / Coap.Msg    (delta-time queue of src/coap_net.c, message layer; CoapVerif/Model/*.lean)
+  S = Coap.Spec.SQ / Coap.Timer  (absolute deadlines, ordered; timer system; CoapVerif/Spec/SendQueue.lean, Timer.lean)
+  M = Coap.SQ / Coap.Msg         (delta-time queue of src/coap_net.c, message layer; CoapVerif/Model/*.lean)
 
-Property theorems only; helper lemmas live in CoapVerif/Lemmas/SendQueue.lean.
+Sections: (1) queue abstraction, (2) coap_calc_timeout, (3) returned wait, (4) steps of coap_retransmit and the due
+loop, one message end to end, (5) S-level schedule / outcomes, (6) exact simulation M ⊑ S for any number of messages
+and sessions, (7) schedule, single outcome, never-sent-again, fixed PDU/timeout, due-fires on M for the whole C06
+alphabet including the NSTART gate.
+
+Property theorems only; helper lemmas live in CoapVerif/Lemmas/SendQueue.lean (queue, S), TimerSim.lean (simulation),
+SchedInv.lean (schedule invariant on M), Conserve.lean (conservation on M).
 -/
 namespace Coap.C06
 open Coap Coap.SQ
@@ -310,16 +320,18 @@ theorem due_head_retransmitted (l : L) (hd : Node) (r : List Node) (hn : l.q.nod
 
 /-! ## M level: one confirmable message on an idle endpoint runs the whole schedule
 
-The S-level theorems of section (5) (`retransmit_schedule`, `single_outcome`, …) hold for every event list with any
-number of messages.  Their transfer to the code model M is proved operation by operation (`queue_abs_invariant`,
-`enqueue_commutes`, `retransmit_step`, `giveup_step`, `due_head_retransmitted`, `no_early_retransmit`,
-`base_le_now_invariant`) and, end to end, for ONE message on an otherwise idle endpoint below — hence `_partial`.
+Closed forms (exact output lists) for ONE message on an otherwise idle endpoint.  `m_retransmit_schedule_partial` was
+the stand-in for the general M-level statement while that was open (hence its name, kept for reference):
 
-Full intended M-level statement, not proved as one theorem (it is what T2 compares on every run): for every
-`Msg.run` from `init` whose clock is monotone and punctual, with message ids unique per session, sessions
-established throughout and parameters in the no-wrap range, every `Out.tx t s mid k _` in the outputs satisfies
-`t = sched t0 T k` with `t0` the time of `Out.tx t0 s mid 0 _` and `T` the `coap_calc_timeout` value drawn at
-submission, `k ≤ MAX_RETRANSMIT`; and every accepted CON has exactly one of {ACK removal, NACK rst, NACK retries}. -/
+  for every `Msg.run` from `init` whose clock is monotone and punctual, sessions established throughout and
+  parameters in the no-wrap range, every `Out.tx t s mid k _` in the outputs satisfies `t = sched t0 T k` with `t0` the
+  time of `Out.tx t0 s mid 0 _` and `T` the `coap_calc_timeout` value drawn at submission, `k ≤ MAX_RETRANSMIT`; and
+  every accepted CON has exactly one of {ACK removal, NACK rst, NACK retries}.
+
+That general statement is now PROVED, for any number of messages and sessions sharing the queue, NSTART-delayed messages
+included: `m_schedule_all`, `m_pending_on_schedule`, `m_single_outcome`, `m_never_sent_again`, `m_due_fires`,
+`m_pdu_and_timeout_fixed` in section (7) (directly on M), and `m_refines_timer_partial` in section (6) (exact simulation
+M ⊑ S). -/
 open Coap.Msg in
 /-- **m_retransmit_schedule_partial** (the code model, not the S-level timer): on an idle endpoint (nothing queued, session
 established and open, no CON in flight, NSTART ≥ 1) a CON message is submitted at `t0`; `T` is what
@@ -518,5 +530,619 @@ example : RunOk (init 0) wevs ∧ (run (init 0) wevs).pend = [] ∧
     (run (init 0) wevs).outs =
       [.nackRetries 14000 0 1, .nackRst 6000 1 1, .tx 6000 1 1 0 6000 100 0, .tx 6000 0 1 2 0 2000 2,
        .acked 3000 0 2, .tx 2000 0 2 0 2000 3000 4, .tx 2000 0 1 1 0 2000 2, .tx 0 0 1 0 0 2000 2] := by decide
+
+/-! ## (6) the code model M is simulated by the timer specification S — any number of messages and sessions
+
+`Coap.Sim` (CoapVerif/Lemmas/TimerSim.lean): `absP` reads the delta list + base time as S's pending list (absolute
+deadline, session, mid, stored timeout `T`, retransmission counter, MAX_RETRANSMIT of the session); `Rel` relates an M
+state to an S state (S's ghost label `t0` erased; S's clock is the time of the last I/O step); `tr` gives the S events an
+M event stands for (`prepare` ↦ `tick now`; `submit` ↦ `tick now, send s mid T mx` with `T` the value
+`coap_calc_timeout` draws; `rxAck` ↦ `ack, tick now`; `rxRst` ↦ `tick now, rst, tick now`; `setNow` ↦ nothing);
+`obsM` / `obsS` project both output logs to what can be observed (transmissions with their retransmission count,
+outcome NACKs).
+
+Scope (`RunIn`, threaded along the run, decidable): events `setNow` (monotone), `prepare`, `submit` of a CON, `rxAck`,
+`rxRst`; every session established, socket open, delay queue empty, 1 ≤ NSTART, MAX_RETRANSMIT < 256 (`SessOk`); a CON
+is submitted while the session has NSTART room, with `T > 0` and `T << MAX_RETRANSMIT` < 2^64 (D7); a submission / an
+RST does not happen at an instant at which a retransmission is due and `coap_io_prepare_io` has not run yet.
+
+Why `_partial`: the FULL intended statement is the same without the two conjuncts `con_active < NSTART` and
+`NothingDue` in `EvIn` (and with NON submissions, `rxNon`, `rxBad`): (a) a CON submitted without NSTART room goes to
+the delay queue and is first transmitted when an outcome of another message releases the slot — possibly in the
+middle of the due loop (give-up → `coap_session_connected` → transmit), which S's `tick` (fire everything due, then
+return) cannot interleave with a `send`: the observable ORDER within one instant differs, so exact output equality
+does not hold for S as written; (b) S fires what is due before anything else happens at an instant, M only when
+`coap_io_prepare_io` runs.  Both are what T2 compares on every run (delay queue lengths, `con_active`). -/
+open Coap.Sim in
+/-- **m_refines_timer_from_partial** (general form): from any M state `l` satisfying the scope invariant `Inv` and any S
+state `ts` related to it, for EVERY in-scope event list: the M run and the S run of the translated events end in
+related states (same pending deadlines / messages / counters, same observable outputs), and `Inv` still holds. -/
+theorem m_refines_timer_from_partial (par : Nat → Msg.Sess) (P : Nat → Nat → Nat → Prop) (hp : ParOk par)
+    (evs : List Msg.Ev) (l : Msg.L) (ts : Timer.TS) (hi : Inv par P l) (hr : Rel (mxOf par) l ts) (hin : RunIn l evs)
+    (hP : ∀ s mid r, Msg.Ev.submit s true mid r ∈ evs →
+      P s mid (calcTimeout (par s).atI (par s).atF (par s).arfI (par s).arfF r)) :
+    Inv par P (Msg.run l evs) ∧ Rel (mxOf par) (Msg.run l evs) (Timer.run ts (trRun l evs)) :=
+  ⟨(run_sim hp evs l ts hi hr hin hP).1, (run_sim hp evs l ts hi hr hin hP).2.1⟩
+
+open Coap.Sim in
+/-- **m_refines_timer_partial**: from the initial state, any number of sessions sharing the send queue, EVERY in-scope
+event list (any interleaving of submissions, clock moves, I/O steps, ACKs and RSTs — punctual or late):
+* S's clock is the time of M's last I/O step;
+* S's pending list (ghost `t0` erased) is exactly what M's delta list stands for: absolute deadline, session,
+  message id, initial timeout `T`, retransmission counter, MAX_RETRANSMIT — in the same order;
+* both have shown the same transmissions (time, session, mid, retransmission number) and the same outcome NACKs
+  (time, session, mid, reason), in the same order. -/
+theorem m_refines_timer_partial (now0 : Nat) (sess : List Msg.Sess) (evs : List Msg.Ev)
+    (hs : ∀ se ∈ sess, SessOk se) (hin : RunIn (Msg.init now0 sess) evs) :
+    let l := Msg.run (Msg.init now0 sess) evs
+    let ts := Timer.run (Timer.init now0) (trRun (Msg.init now0 sess) evs)
+    ts.now ≤ l.now ∧
+    ts.pend.map er = absP (fun s => (parOf sess s).maxRtx) l.q.base l.q.nodes ∧
+    ts.outs.filterMap obsS = l.out.filterMap obsM := by
+  intro l ts
+  have := (run_sim (P := fun _ _ _ => True) (parOk_of sess hs) evs _ (Timer.init now0)
+    (inv_init _ now0 sess hs) (rel_init _ now0 sess) hin (fun _ _ _ _ => trivial)).2.1
+  exact ⟨this.now, this.pend, this.outs⟩
+
+open Coap.Sim in
+/-- **m_schedule_via_timer_partial** (`retransmit_schedule` lifted from S to M THROUGH the simulation; the same
+conclusion is proved without the two extra scope conditions as `m_schedule_all` in section (7)): in every in-scope run that is punctual
+(`Punctual`: no I/O step, submission or arrival happens after the clock was moved past a pending deadline), for any
+number of messages and sessions sharing the queue: EVERY transmission `tx t s mid k con` M ever emits is a Confirmable,
+belongs to a `coap_send` of (s, mid) in the run with PRNG byte `r`, its first transmission `tx t0 s mid 0` is in the
+outputs, and `t = t0 + (2^k − 1)·T` where `T = coap_calc_timeout(session parameters, r)` is the value drawn at that
+submission — drawn ONCE: all retransmissions of the message use the same `T` —, and `k ≤ MAX_RETRANSMIT`. -/
+theorem m_schedule_via_timer_partial (now0 : Nat) (sess : List Msg.Sess) (evs : List Msg.Ev)
+    (hs : ∀ se ∈ sess, SessOk se) (hin : RunIn (Msg.init now0 sess) evs) (hpu : Punctual (Msg.init now0 sess) evs) :
+    ∀ t s mid k con, Msg.Out.tx t s mid k con ∈ (Msg.run (Msg.init now0 sess) evs).out →
+      con = true ∧ ∃ t0 r, Msg.Ev.submit s true mid r ∈ evs ∧
+        Msg.Out.tx t0 s mid 0 true ∈ (Msg.run (Msg.init now0 sess) evs).out ∧
+        t = sched t0 (calcTimeout (parOf sess s).atI (parOf sess s).atF (parOf sess s).arfI (parOf sess s).arfF r) k ∧
+        k ≤ (parOf sess s).maxRtx := by
+  intro t s mid k con hmem
+  have hp := parOk_of sess hs
+  obtain ⟨_, hr, hsend⟩ := run_sim (P := fun _ _ _ => True) hp evs _ (Timer.init now0)
+    (inv_init _ now0 sess hs) (rel_init _ now0 sess) hin (fun _ _ _ _ => trivial)
+  have hok := run_runOk (P := fun _ _ _ => True) hp evs _ (Timer.init now0)
+    (inv_init _ now0 sess hs) (rel_init _ now0 sess) hin hpu (fun _ _ _ _ => trivial)
+  have hor := Timer.run_orig (Q := fun s mid T mx => ∃ r, Msg.Ev.submit s true mid r ∈ evs ∧
+      T = calcTimeout (parOf sess s).atI (parOf sess s).atF (parOf sess s).arfI (parOf sess s).arfF r ∧
+      mx = (parOf sess s).maxRtx) _ (Timer.init now0) (Timer.orig_init _ now0) hsend
+  obtain ⟨hc, t0, T, mx, hS⟩ := obs_tx_M_to_S hr.outs hmem
+  obtain ⟨hsch, hk⟩ := retransmit_schedule now0 _ hok t s mid k t0 T mx hS
+  obtain ⟨⟨r, hsub, hT, hmx⟩, h0⟩ := hor.2 t s mid k t0 T mx hS
+  exact ⟨hc, t0, r, hsub, obs_tx_S_to_M hr.outs h0, by rw [← hT]; exact hsch, by rw [← hmx]; exact hk⟩
+
+/-- witness run: two sessions sharing the send queue (NSTART 1 each), T = 2000 and T = 3000 ticks -/
+def mevs : List Msg.Ev :=
+  [.submit 0 true 1 0, .setNow 500, .submit 1 true 7 255, .setNow 2000, .prepare, .setNow 3500, .prepare,
+   .rxAck 1 7, .setNow 6000, .prepare, .setNow 7000, .submit 1 true 8 128, .rxRst 0 1, .setNow 9500, .prepare]
+
+open Coap.Sim in
+/-- **m_single_outcome_via_timer_partial** (`single_outcome` lifted from S to M THROUGH the simulation; the full
+version, delay queue included, is `m_single_outcome` in section (7) — conservation law, every in-scope event list,
+punctual or not, any number of messages and sessions): for every (session, mid), the number of `coap_send` calls equals
+the number of outcome NACK-handler calls (TOO_MANY_RETRIES or RST, carrying the sent PDU) plus the number of silent
+completions (an arriving ACK that found the message in the send queue) plus the number of nodes still in the send
+queue.  So a message id submitted once is — at every moment — exactly one of: pending, completed by the ACK, or
+reported by ONE NACK; it is never concluded twice and never lost. -/
+theorem m_single_outcome_via_timer_partial (now0 : Nat) (sess : List Msg.Sess) (evs : List Msg.Ev)
+    (hs : ∀ se ∈ sess, SessOk se) (hin : RunIn (Msg.init now0 sess) evs) (s mid : Nat) :
+    subC s mid evs =
+      nackC s mid (Msg.run (Msg.init now0 sess) evs).out + ackC s mid (Msg.init now0 sess) evs +
+        pendC s mid (Msg.run (Msg.init now0 sess) evs).q.nodes := by
+  have hp := parOk_of sess hs
+  obtain ⟨_, hr, _⟩ := run_sim (P := fun _ _ _ => True) hp evs _ (Timer.init now0)
+    (inv_init _ now0 sess hs) (rel_init _ now0 sess) hin (fun _ _ _ _ => trivial)
+  have hack := ackS_run (P := fun _ _ _ => True) hp s mid evs _ (Timer.init now0)
+    (inv_init _ now0 sess hs) (rel_init _ now0 sess) hin (fun _ _ _ _ => trivial)
+  have hso := single_outcome_init s mid now0 (trRun (Msg.init now0 sess) evs)
+  rw [sc_trRun, oc_split, nackS_obs, hr.outs, ← nackC_obs, hack, ← pc_er, hr.pend, pc_absP] at hso
+  simp only [Timer.init, ackS, Nat.zero_add] at hso
+  exact hso
+
+open Coap.Sim in
+/-- non-vacuity / reading of `m_single_outcome_via_timer_partial` on the witness run: message (0,1) — one send, one RST NACK;
+message (1,7) — one send, silently completed by its ACK; message (1,8) — one send, still pending -/
+example : subC 0 1 mevs = 1 ∧ nackC 0 1 (Msg.run (Msg.init 0 [{}, {}]) mevs).out = 1 ∧
+    ackC 0 1 (Msg.init 0 [{}, {}]) mevs = 0 ∧ pendC 0 1 (Msg.run (Msg.init 0 [{}, {}]) mevs).q.nodes = 0 ∧
+    subC 1 7 mevs = 1 ∧ ackC 1 7 (Msg.init 0 [{}, {}]) mevs = 1 ∧
+    nackC 1 7 (Msg.run (Msg.init 0 [{}, {}]) mevs).out = 0 ∧
+    subC 1 8 mevs = 1 ∧ pendC 1 8 (Msg.run (Msg.init 0 [{}, {}]) mevs).q.nodes = 1 := by decide
+
+open Coap.Sim in
+/-- non-vacuity of `m_refines_timer_from_partial`: the initial state with two default sessions satisfies `ParOk`,
+`Inv` and `Rel` -/
+example : ParOk (parOf [{}, {}]) ∧ Inv (parOf [{}, {}]) (fun _ _ _ => True) (Msg.init 0 [{}, {}]) ∧
+    Rel (mxOf (parOf [{}, {}])) (Msg.init 0 [{}, {}]) (Timer.init 0) :=
+  ⟨parOk_of _ (by decide), inv_init _ 0 _ (by decide), rel_init _ 0 _⟩
+
+/-! ### (3') the returned wait against every pending deadline of every session -/
+open Coap.Msg in
+/-- **wait_le_every_deadline** (every state, any number of messages and sessions, no scope restriction): the wait
+`coap_io_prepare_io` returns never exceeds the time to ANY pending deadline of ANY session (`0` when one is already
+due); it is exactly the time to the earliest one reduced to the `unsigned int` result (mod 2^32), and `0` on an empty
+queue. -/
+theorem wait_le_every_deadline (l : L) : let r := prepareCore l
+    (∀ e ∈ abs r.1.q, r.2 ≤ e.deadline - r.1.now) ∧
+    (∀ d, Spec.SQ.earliest (abs r.1.q) = some d → r.2 = (d - r.1.now) % 4294967296) ∧
+    (r.1.q.nodes = [] → r.2 = 0) :=
+  Coap.Sim.prepareCore_wait_all l
+
+open Coap.Sim in
+/-- non-vacuity of the hypotheses of `m_refines_timer_partial`, `m_schedule_via_timer_partial`,
+`m_single_outcome_via_timer_partial`: the witness run is in scope and punctual; two messages of
+two sessions interleave in the queue, one is ACKed, one is RST; a third is retransmitted -/
+example : (∀ se ∈ [({} : Msg.Sess), {}], SessOk se) ∧ RunIn (Msg.init 0 [{}, {}]) mevs ∧
+    Punctual (Msg.init 0 [{}, {}]) mevs ∧
+    (Msg.run (Msg.init 0 [{}, {}]) mevs).out.filterMap obsM =
+      [.tx 9500 1 8 1 true, .nackRst 7000 0 1, .tx 7000 1 8 0 true, .tx 6000 0 1 2 true, .tx 3500 1 7 1 true,
+       .tx 2000 0 1 1 true, .tx 500 1 7 0 true, .tx 0 0 1 0 true] ∧
+    (Timer.run (Timer.init 0) (trRun (Msg.init 0 [{}, {}]) mevs)).outs.filterMap obsS =
+      (Msg.run (Msg.init 0 [{}, {}]) mevs).out.filterMap obsM := by decide
+
+open Coap.Msg in
+/-- non-vacuity of `wait_le_every_deadline`: two sessions, deadlines 1010 and 1030, now = 1003: wait 7 -/
+example : let r := prepareCore { now := 1003, q := wq, sess := [{}, {}], out := [] }
+    (abs r.1.q).map (·.deadline) = [1010, 1030] ∧ r.2 = 7 := by decide
+
+/-! ## (7) the schedule and the fixed PDU / timeout on M for the whole C06 alphabet, INCLUDING the NSTART gate
+
+Proved directly on the code model M as an invariant (`Coap.Sched`, CoapVerif/Lemmas/SchedInv.lean), not through the
+exact simulation of section (6), so the two cases excluded there are covered: a Confirmable submitted without NSTART
+room waits in the session's delay queue and is first transmitted when an outcome of another message releases the slot
+(`coap_session_connected` drains the delay queue — from the ACK / RST branch of `coap_dispatch` or from the give-up
+branch of `coap_retransmit` in the middle of the due loop); and submissions / RSTs may come at any instant.
+
+Scope `RunG` (threaded along the run, decidable): EVERY event of the model except the two that take a session out of
+the established state: `setNow` (monotone), `prepare`, `submit` of a NON or of a CON — with or without NSTART room —
+whose timeout `T = coap_calc_timeout(…, r)` is positive and inside the no-wrap range D7 (`T << MAX_RETRANSMIT` < 2^64),
+`rxAck`, `rxRst`, `rxNon` (a response: `coap_cancel_all_messages` by token), `rxBad` (invalid code), `connect`; any
+number of sessions (`SessOk`: established, socket open, 1 ≤ NSTART, MAX_RETRANSMIT < 256, nothing delayed initially)
+sharing the one send queue.  Not in `RunG`: `hold` (session not established — retransmissions are then parked in the
+delay queue, off schedule by design) and `disconnect` (session failure, C08).  "The C06 alphabet" below = `RunG`. -/
+/-- witness run with the NSTART gate: ONE session with NSTART 1; message 2 is submitted while message 1 is in flight
+(delayed), message 1 runs out of retransmissions (MAX_RETRANSMIT 1), the give-up inside the due loop releases the
+slot and message 2 is transmitted at that instant; it is retransmitted on its own schedule and then ACKed -/
+def gevs : List Msg.Ev :=
+  [.submit 0 true 1 0, .setNow 100, .submit 0 true 2 255, .setNow 2000, .prepare, .setNow 6000, .prepare,
+   .setNow 9000, .prepare, .rxAck 0 2]
+
+open Coap.Sim Coap.Sched in
+/-- **m_schedule_all** (`retransmit_schedule` on M, full): in EVERY punctual run over the C06 alphabet, any number of
+messages and sessions sharing the send queue, NSTART-delayed messages included: every transmission `tx t s mid k true`
+of a Confirmable M ever emits belongs to a `coap_send` of (s, mid) in the run with PRNG byte `r`, the first
+transmission `tx t0 s mid 0` of that message is in the outputs, `t = t0 + (2^k − 1)·T` with
+`T = coap_calc_timeout(parameters of s, r)` — the one value drawn at that submission, used for all its
+retransmissions —, and `k ≤ MAX_RETRANSMIT`. -/
+theorem m_schedule_all (now0 : Nat) (sess : List Msg.Sess) (evs : List Msg.Ev)
+    (hs : ∀ se ∈ sess, SessOk se) (hin : RunG (Msg.init now0 sess) evs) (hpu : Punctual (Msg.init now0 sess) evs) :
+    ∀ t s mid k, Msg.Out.tx t s mid k true ∈ (Msg.run (Msg.init now0 sess) evs).out →
+      ∃ t0 r, Msg.Ev.submit s true mid r ∈ evs ∧
+        Msg.Out.tx t0 s mid 0 true ∈ (Msg.run (Msg.init now0 sess) evs).out ∧
+        t = sched t0 (calcTimeout (parOf sess s).atI (parOf sess s).atF (parOf sess s).arfI (parOf sess s).arfF r) k ∧
+        k ≤ (parOf sess s).maxRtx := by
+  intro t s mid k hmem
+  have hi := run_finv (pu := True) (P := fun s mid T => ∃ r, Msg.Ev.submit s true mid r ∈ evs ∧
+      T = calcTimeout (parOf sess s).atI (parOf sess s).atF (parOf sess s).arfI (parOf sess s).arfF r)
+    (gpar_of sess hs) evs _ (finv_init _ _ now0 sess hs) hin (fun _ => hpu) (fun s mid r h => ⟨r, h, rfl⟩)
+  obtain ⟨t0, T, h0, hsch, hk, r, hsub, hT⟩ := (hi.outs trivial).1 t s mid k hmem
+  exact ⟨t0, r, hsub, h0, by rw [← hT]; exact hsch, hk⟩
+
+open Coap.Sim Coap.Sched in
+/-- **m_pending_on_schedule** (`pending_on_schedule` on M, full): … and every node in the send queue is armed for
+the next slot of the schedule of its message, with ALL its transmissions so far made at their slots: for some `t0`,
+transmission number `j` at `t0 + (2^j − 1)·T` is in the outputs for every `j ≤ cnt` (no slot skipped), and its absolute
+deadline is `t0 + (2^(cnt+1) − 1)·T`, `T` its stored timeout. -/
+theorem m_pending_on_schedule (now0 : Nat) (sess : List Msg.Sess) (evs : List Msg.Ev)
+    (hs : ∀ se ∈ sess, SessOk se) (hin : RunG (Msg.init now0 sess) evs) (hpu : Punctual (Msg.init now0 sess) evs) :
+    let l := Msg.run (Msg.init now0 sess) evs
+    ∀ p ∈ absP (fun s => (parOf sess s).maxRtx) l.q.base l.q.nodes,
+      ∃ t0, (∀ j, j ≤ p.2.cnt → Msg.Out.tx (sched t0 p.2.T j) p.2.sess p.2.mid j true ∈ l.out) ∧
+        p.1 = sched t0 p.2.T (p.2.cnt + 1) := by
+  intro l p hp
+  have hi := run_finv (pu := True) (P := fun _ _ _ => True)
+    (gpar_of sess hs) evs _ (finv_init _ _ now0 sess hs) hin (fun _ => hpu) (fun _ _ _ _ => trivial)
+  exact hi.pend p hp trivial
+
+open Coap.Sim Coap.Sched in
+/-- **m_giveup_after_all_retransmissions** (full): in every punctual run over the C06 alphabet, a TOO_MANY_RETRIES NACK
+for (s, mid) is only ever reported after ALL `MAX_RETRANSMIT + 1` transmissions of that message have been made, each at
+its slot `t0 + (2^j − 1)·T` (j = 0 … MAX_RETRANSMIT), and exactly at the next slot `t0 + (2^(MAX_RETRANSMIT+1) − 1)·T`;
+`T` is the `coap_calc_timeout` value of a `coap_send` of (s, mid) in the run. -/
+theorem m_giveup_after_all_retransmissions (now0 : Nat) (sess : List Msg.Sess) (evs : List Msg.Ev)
+    (hs : ∀ se ∈ sess, SessOk se) (hin : RunG (Msg.init now0 sess) evs) (hpu : Punctual (Msg.init now0 sess) evs) :
+    ∀ t s mid, Msg.Out.nack t s .retries mid true ∈ (Msg.run (Msg.init now0 sess) evs).out →
+      ∃ t0 r, Msg.Ev.submit s true mid r ∈ evs ∧
+        (∀ j, j ≤ (parOf sess s).maxRtx →
+          Msg.Out.tx (sched t0 (calcTimeout (parOf sess s).atI (parOf sess s).atF (parOf sess s).arfI
+            (parOf sess s).arfF r) j) s mid j true ∈ (Msg.run (Msg.init now0 sess) evs).out) ∧
+        t = sched t0 (calcTimeout (parOf sess s).atI (parOf sess s).atF (parOf sess s).arfI (parOf sess s).arfF r)
+          ((parOf sess s).maxRtx + 1) := by
+  intro t s mid hmem
+  have hi := run_finv (pu := True) (P := fun s mid T => ∃ r, Msg.Ev.submit s true mid r ∈ evs ∧
+      T = calcTimeout (parOf sess s).atI (parOf sess s).atF (parOf sess s).arfI (parOf sess s).arfF r)
+    (gpar_of sess hs) evs _ (finv_init _ _ now0 sess hs) hin (fun _ => hpu) (fun s mid r h => ⟨r, h, rfl⟩)
+  obtain ⟨t0, T, hall, ht, r, hsub, hT⟩ := (hi.outs trivial).2 t s mid hmem
+  subst hT
+  exact ⟨t0, r, hsub, hall, ht⟩
+
+open Coap.Sim Coap.Sched in
+/-- non-vacuity of `m_giveup_after_all_retransmissions`: in the gated witness run message 1 (MAX_RETRANSMIT 1,
+T = 2000) is given up at 6000 = 0 + (2^2 − 1)·2000 after transmissions 0 and 1 at 0 and 2000 -/
+example : Msg.Out.nack 6000 0 .retries 1 true ∈ (Msg.run (Msg.init 0 [{ maxRtx := 1 }]) gevs).out ∧
+    sched 0 2000 2 = 6000 ∧ Msg.Out.tx (sched 0 2000 0) 0 1 0 true ∈ (Msg.run (Msg.init 0 [{ maxRtx := 1 }]) gevs).out ∧
+    Msg.Out.tx (sched 0 2000 1) 0 1 1 true ∈ (Msg.run (Msg.init 0 [{ maxRtx := 1 }]) gevs).out := by decide
+
+open Coap.Sim Coap.Sched in
+/-- **m_pdu_and_timeout_fixed** (byte identity of retransmissions and `T` drawn ONCE, as an invariant, full): in EVERY
+run over the C06 alphabet (punctual or late, NSTART-delayed messages included), every node in the send queue and every
+node in any session's delay queue — whatever has happened to it: delayed by the NSTART gate, drained, any number of
+re-insertions by `coap_retransmit`, pops, removals and insertions of other messages around it — still carries
+exactly what its `coap_send` put there: the fields standing for the PDU (message id, token, type CON) are unchanged,
+and the stored `timeout` is the value `coap_calc_timeout` drew at that submission.  Only the relative time `t` and
+`retransmit_cnt` ever change (`cnt = 0` while delayed, `cnt ≤ MAX_RETRANSMIT` always), so every retransmission delay
+is `timeout << cnt` of that one `T`; and `con_active` never exceeds NSTART. -/
+theorem m_pdu_and_timeout_fixed (now0 : Nat) (sess : List Msg.Sess) (evs : List Msg.Ev)
+    (hs : ∀ se ∈ sess, SessOk se) (hin : RunG (Msg.init now0 sess) evs) :
+    let l := Msg.run (Msg.init now0 sess) evs
+    (∀ n ∈ l.q.nodes,
+      n.con = true ∧ n.tok = n.mid ∧ n.cnt ≤ (parOf sess n.sess).maxRtx ∧
+      ∃ r, Msg.Ev.submit n.sess true n.mid r ∈ evs ∧
+        n.timeout = calcTimeout (parOf sess n.sess).atI (parOf sess n.sess).atF (parOf sess n.sess).arfI
+          (parOf sess n.sess).arfF r) ∧
+    (∀ s, ∀ n ∈ (l.getS s).delayq,
+      n.con = true ∧ n.tok = n.mid ∧ n.cnt = 0 ∧
+      ∃ r, Msg.Ev.submit s true n.mid r ∈ evs ∧
+        n.timeout = calcTimeout (parOf sess s).atI (parOf sess s).atF (parOf sess s).arfI (parOf sess s).arfF r) ∧
+    (∀ s, (l.getS s).conActive ≤ (l.getS s).nstart) := by
+  intro l
+  have hi := run_finv (pu := False) (P := fun s mid T => ∃ r, Msg.Ev.submit s true mid r ∈ evs ∧
+      T = calcTimeout (parOf sess s).atI (parOf sess s).atF (parOf sess s).arfI (parOf sess s).arfF r)
+    (gpar_of sess hs) evs _ (finv_init _ _ now0 sess hs) hin (fun h => h.elim) (fun s mid r h => ⟨r, h, rfl⟩)
+  refine ⟨?_, ?_, ?_⟩
+  · intro n hn
+    obtain ⟨hcon, htok, _, hcnt, _, hP⟩ := hi.nodes n hn
+    exact ⟨hcon, htok, hcnt, hP⟩
+  · intro s n hn
+    obtain ⟨ca, dq, hg, _, hdq⟩ := hi.sess s
+    have hn' : n ∈ dq := by
+      have : (l.getS s).delayq = dq := by rw [hg]
+      rw [← this]; exact hn
+    obtain ⟨hcon, htok, _, _, hcnt, _, hP⟩ := hdq n hn'
+    exact ⟨hcon, htok, hcnt, hP⟩
+  · intro s
+    obtain ⟨ca, dq, hg, hle, _⟩ := hi.sess s
+    rw [hg]; exact hle
+
+open Coap.Sim Coap.Sched in
+/-- non-vacuity of `m_schedule_all` / `m_pending_on_schedule` / `m_pdu_and_timeout_fixed`: the gated witness run is in
+scope and punctual (it is NOT in the scope `RunIn` of the exact simulation); message 2 (T = 3000) is first transmitted
+at 6000 — the instant message 1 is given up — and again at 9000 -/
+example : (∀ se ∈ [({ maxRtx := 1 } : Msg.Sess)], SessOk se) ∧ RunG (Msg.init 0 [{ maxRtx := 1 }]) gevs ∧
+    Punctual (Msg.init 0 [{ maxRtx := 1 }]) gevs ∧ ¬ RunIn (Msg.init 0 [{ maxRtx := 1 }]) gevs ∧
+    (Msg.run (Msg.init 0 [{ maxRtx := 1 }]) gevs).out.filterMap obsM =
+      [.tx 9000 0 2 1 true, .nackRetries 6000 0 1, .tx 6000 0 2 0 true, .tx 2000 0 1 1 true, .tx 0 0 1 0 true] := by
+  decide
+
+open Coap.Sim Coap.Sched in
+/-- **sim_gate_order_witness** (why the exact simulation of section (6) must exclude the NSTART gate): on the gated
+witness run M lets the delayed message 2 in from INSIDE the give-up of message 1 (`coap_retransmit` →
+`coap_session_connected` → transmit, then the NACK is reported): `tx 6000 (0,2) 0` comes BEFORE `nack 6000 (0,1)`.
+S's clock only moves with a `tick`, which fires everything due first, so the `send` of message 2 at 6000 can only follow
+the `tick 6000` that reports the NACK: the natural translation gives the same observations as a multiset, in a different
+order within the instant 6000. -/
+theorem sim_gate_order_witness :
+    let obsS' := (Timer.run (Timer.init 0) [.tick 0, .send 0 1 2000 1, .tick 2000, .tick 6000, .send 0 2 3000 1,
+      .tick 9000, .ack 0 2, .tick 9000]).outs.filterMap obsS
+    let obsM' := (Msg.run (Msg.init 0 [{ maxRtx := 1 }]) gevs).out.filterMap obsM
+    obsS'.isPerm obsM' = true ∧ obsS' ≠ obsM' ∧
+    obsM' = [.tx 9000 0 2 1 true, .nackRetries 6000 0 1, .tx 6000 0 2 0 true, .tx 2000 0 1 1 true, .tx 0 0 1 0 true] ∧
+    obsS' = [.tx 9000 0 2 1 true, .tx 6000 0 2 0 true, .nackRetries 6000 0 1, .tx 2000 0 1 1 true, .tx 0 0 1 0 true] := by
+  decide
+
+open Coap.Sim Coap.Sched in
+/-- **m_single_outcome** (`single_outcome` on M, full — conservation law for EVERY run over the C06 alphabet, punctual
+or late, NSTART-delayed messages included, any number of messages and sessions): for every (session, mid)
+
+  accepted `coap_send` calls of a CON  =  outcome NACK-handler calls (TOO_MANY_RETRIES or RST, carrying the sent PDU)
+                               + completions without such a NACK (`remC`: an arriving ACK that finds the message in the
+                                 send queue — the silent completion —; in the wider alphabet also an invalid-code ACK
+                                 that finds it, and a response carrying its token: `coap_cancel_all_messages`)
+                               + nodes still in the send queue + nodes still in the session's delay queue.
+
+(`coap_send` refuses a Confirmable only when the same message id is already waiting in the delay queue.)  So a
+message id accepted once is — at every moment — exactly one of: waiting for NSTART room, pending, completed by its
+ACK (or cancelled by the response / invalid code), or reported by exactly ONE NACK; it is never concluded twice and
+never lost.  In runs with only ACK / RST arrivals `remC` counts exactly the ACKs that found the message. -/
+theorem m_single_outcome (now0 : Nat) (sess : List Msg.Sess) (evs : List Msg.Ev)
+    (hs : ∀ se ∈ sess, SessOk se) (hin : RunG (Msg.init now0 sess) evs) (s mid : Nat) :
+    let l := Msg.run (Msg.init now0 sess) evs
+    accC s mid (Msg.init now0 sess) evs =
+      nackC s mid l.out + remC s mid (Msg.init now0 sess) evs + pendC s mid l.q.nodes +
+        midC mid (l.getS s).delayq := by
+  intro l
+  have h := run_conserve_M (P := fun _ _ _ => True) (gpar_of sess hs) s mid evs _
+    (finv_init False _ now0 sess hs) hin (fun _ _ _ _ => trivial)
+  rw [phi_init s mid now0 sess hs] at h
+  simp only [Phi] at h
+  simp only [l]
+  omega
+
+open Coap.Sim Coap.Sched in
+/-- **m_never_sent_again** (full): split any run over the C06 alphabet at any point at which (session, mid) is neither
+in the send queue nor in the delay queue — by `m_single_outcome` every accepted `coap_send` of it so far has had its ONE
+outcome (ACK, NACK RST, NACK TOO_MANY_RETRIES).  If the rest of the run does not submit (session, mid) again, the
+number of transmissions of (session, mid) never grows — it is never sent again, whatever else happens on this or any
+other session — and it never re-enters a queue. -/
+theorem m_never_sent_again (now0 : Nat) (sess : List Msg.Sess) (evs1 evs2 : List Msg.Ev)
+    (hs : ∀ se ∈ sess, SessOk se) (hin : RunG (Msg.init now0 sess) (evs1 ++ evs2)) (s mid : Nat)
+    (hq : pendC s mid (Msg.run (Msg.init now0 sess) evs1).q.nodes = 0)
+    (hd : midC mid ((Msg.run (Msg.init now0 sess) evs1).getS s).delayq = 0)
+    (h2 : accC s mid (Msg.run (Msg.init now0 sess) evs1) evs2 = 0) :
+    txC s mid (Msg.run (Msg.init now0 sess) (evs1 ++ evs2)).out = txC s mid (Msg.run (Msg.init now0 sess) evs1).out ∧
+    pendC s mid (Msg.run (Msg.init now0 sess) (evs1 ++ evs2)).q.nodes = 0 ∧
+    midC mid ((Msg.run (Msg.init now0 sess) (evs1 ++ evs2)).getS s).delayq = 0 := by
+  have hp := gpar_of sess hs
+  rw [runG_append] at hin
+  have hi := run_finv (pu := False) (P := fun _ _ _ => True) hp evs1 _ (finv_init False _ now0 sess hs) hin.1
+    (fun h => h.elim) (fun _ _ _ _ => trivial)
+  have := run_quiet_M hp s mid evs2 _ hi hin.2 (fun _ _ _ _ => trivial) (by simp only [Psi]; omega) h2
+  have e : Msg.run (Msg.init now0 sess) (evs1 ++ evs2) = Msg.run (Msg.run (Msg.init now0 sess) evs1) evs2 := by
+    simp [Msg.run, List.foldl_append]
+  rw [e]
+  have h3 := this.2
+  simp only [Psi] at h3
+  exact ⟨this.1, by omega, by omega⟩
+
+open Coap.Sim Coap.Sched in
+/-- non-vacuity / reading of `m_single_outcome` and `m_never_sent_again` on the gated witness run: message (0,1) — one
+accepted send, one TOO_MANY_RETRIES NACK; message (0,2) — one accepted send, delayed after 3 events (counted in the
+delay queue), silently completed by its ACK at the end; after its give-up (7 events) message (0,1) has been sent
+twice and is still sent twice at the end -/
+example : accC 0 1 (Msg.init 0 [{ maxRtx := 1 }]) gevs = 1 ∧
+    nackC 0 1 (Msg.run (Msg.init 0 [{ maxRtx := 1 }]) gevs).out = 1 ∧
+    accC 0 2 (Msg.init 0 [{ maxRtx := 1 }]) gevs = 1 ∧ remC 0 2 (Msg.init 0 [{ maxRtx := 1 }]) gevs = 1 ∧
+    midC 2 ((Msg.run (Msg.init 0 [{ maxRtx := 1 }]) (gevs.take 3)).getS 0).delayq = 1 ∧
+    RunG (Msg.init 0 [{ maxRtx := 1 }]) (gevs.take 7 ++ gevs.drop 7) ∧
+    pendC 0 1 (Msg.run (Msg.init 0 [{ maxRtx := 1 }]) (gevs.take 7)).q.nodes = 0 ∧
+    midC 1 ((Msg.run (Msg.init 0 [{ maxRtx := 1 }]) (gevs.take 7)).getS 0).delayq = 0 ∧
+    accC 0 1 (Msg.run (Msg.init 0 [{ maxRtx := 1 }]) (gevs.take 7)) (gevs.drop 7) = 0 ∧
+    txC 0 1 (Msg.run (Msg.init 0 [{ maxRtx := 1 }]) (gevs.take 7)).out = 2 ∧
+    txC 0 1 (Msg.run (Msg.init 0 [{ maxRtx := 1 }]) gevs).out = 2 := by decide
+
+open Coap.Sim Coap.Sched in
+/-- **m_due_fires** (`due_fires` on M, full — the schedule is met, not just respected): after EVERY run over the C06
+alphabet (NSTART-delayed messages included), when `coap_io_prepare_io` has run no pending message of any session is
+due: each one whose deadline had come has been retransmitted (and re-armed strictly later) or concluded with its NACK
+— the due loop has fuel for all of them, including the delayed messages a give-up lets in.  With
+`m_pending_on_schedule` / `m_schedule_all`: in a punctual run the `k`-th retransmission happens, and at
+`t0 + (2^k − 1)·T`; and by `wait_le_every_deadline` the wait then returned is positive and never beyond the next
+deadline. -/
+theorem m_due_fires (now0 : Nat) (sess : List Msg.Sess) (evs : List Msg.Ev)
+    (hs : ∀ se ∈ sess, SessOk se) (hin : RunG (Msg.init now0 sess) evs) :
+    let l := Msg.run (Msg.init now0 sess) evs
+    ∀ e ∈ abs (Msg.prepareCore l).1.q, (Msg.prepareCore l).1.now < e.deadline := by
+  intro l e he
+  have hi := run_finv (pu := False) (P := fun _ _ _ => True) (gpar_of sess hs) evs _
+    (finv_init False _ now0 sess hs) hin (fun h => h.elim) (fun _ _ _ _ => trivial)
+  have hnd := prepareCore_nothingDue (gpar_of sess hs) _ hi
+  rw [nothingDue_iff] at hnd
+  generalize (Msg.prepareCore l).1 = l' at *
+  rcases l' with ⟨now, ⟨base, nodes⟩, ss, out⟩
+  rcases nodes with _ | ⟨h, rest⟩
+  · simp [abs, absFrom] at he
+  · have h1 := hnd h rest rfl
+    simp only [abs, absFrom, List.mem_cons] at he
+    simp only [] at h1 ⊢
+    rcases he with rfl | he
+    · exact h1
+    · have := absFrom_ge _ _ e he; omega
+
+open Coap.Sim Coap.Sched in
+/-- non-vacuity of `m_due_fires` on the gated witness: at 6000 message 1 is due (give-up) and message 2 is let in;
+afterwards the only pending deadline is 9000 and the wait is 3000 -/
+example : let l := Msg.run (Msg.init 0 [{ maxRtx := 1 }]) (gevs.take 6)
+    (abs l.q).map (·.deadline) = [6000] ∧ l.now = 6000 ∧
+    (abs (Msg.prepareCore l).1.q).map (·.deadline) = [9000] ∧ (Msg.prepareCore l).2 = 3000 := by decide
+
+open Coap.Sim Coap.Sched in
+/-- **m_at_most_max_retransmissions** (full — every run over the C06 alphabet, punctual or late, NSTART-delayed messages
+included): the number of transmissions of (session, mid) never exceeds `MAX_RETRANSMIT + 1` per accepted `coap_send` of
+it — one first transmission and at most MAX_RETRANSMIT retransmissions; what is still queued keeps a budget of
+`MAX_RETRANSMIT − retransmit_cnt` each, what is still delayed `MAX_RETRANSMIT + 1` each.  With `m_schedule_all` (every
+transmission number `k` at its slot) and `m_pending_on_schedule` (numbers 0 … cnt all made): each slot is used, and
+used once. -/
+theorem m_at_most_max_retransmissions (now0 : Nat) (sess : List Msg.Sess) (evs : List Msg.Ev)
+    (hs : ∀ se ∈ sess, SessOk se) (hin : RunG (Msg.init now0 sess) evs) (s mid : Nat) :
+    let l := Msg.run (Msg.init now0 sess) evs
+    txC s mid l.out + budC s mid (parOf sess s).maxRtx l.q.nodes +
+        ((parOf sess s).maxRtx + 1) * midC mid (l.getS s).delayq ≤
+      ((parOf sess s).maxRtx + 1) * accC s mid (Msg.init now0 sess) evs := by
+  intro l
+  have h := run_W (P := fun _ _ _ => True) (gpar_of sess hs) s mid evs _
+    (finv_init False _ now0 sess hs) hin (fun _ _ _ _ => trivial)
+  rw [W_init s mid _ now0 sess hs, Nat.zero_add] at h
+  exact h
+
+open Coap.Sim Coap.Sched in
+/-- non-vacuity / reading of `m_at_most_max_retransmissions` on the gated witness (MAX_RETRANSMIT 1): message (0,1) was
+transmitted 2 = (1+1)·1 times; message (0,2) 2 times -/
+example : txC 0 1 (Msg.run (Msg.init 0 [{ maxRtx := 1 }]) gevs).out = 2 ∧
+    txC 0 2 (Msg.run (Msg.init 0 [{ maxRtx := 1 }]) gevs).out = 2 ∧
+    accC 0 1 (Msg.init 0 [{ maxRtx := 1 }]) gevs = 1 := by decide
+
+open Coap.Sim Coap.Sched in
+/-- **m_transmissions_exactly** (full — "retransmitted after T, 2T, 4T, …", exactly): in every punctual run, for every
+node in the send queue whose (session, mid) was accepted by `coap_send` exactly once: the number of transmissions of
+that message so far is exactly `retransmit_cnt + 1` — numbers 0 … cnt, each made once, at `t0 + (2^j − 1)·T`
+(`m_pending_on_schedule`), nothing else (`m_at_most_max_retransmissions`) — and it is the only node of that message. -/
+theorem m_transmissions_exactly (now0 : Nat) (sess : List Msg.Sess) (evs : List Msg.Ev)
+    (hs : ∀ se ∈ sess, SessOk se) (hin : RunG (Msg.init now0 sess) evs) (hpu : Punctual (Msg.init now0 sess) evs) :
+    let l := Msg.run (Msg.init now0 sess) evs
+    ∀ n ∈ l.q.nodes, accC n.sess n.mid (Msg.init now0 sess) evs = 1 →
+      txC n.sess n.mid l.out = n.cnt + 1 ∧ pendC n.sess n.mid l.q.nodes = 1 := by
+  intro l n hn hacc
+  obtain ⟨d, hd⟩ := mem_absP_of_mem (fun s => (parOf sess s).maxRtx) l.q.base l.q.nodes n hn
+  obtain ⟨t0, hall, _⟩ := m_pending_on_schedule now0 sess evs hs hin hpu (d, toP _ n) hd
+  have hge := txC_ge n.sess n.mid n.cnt l.out (fun j => sched t0 n.timeout j) hall
+  have hbud := m_at_most_max_retransmissions now0 sess evs hs hin n.sess n.mid
+  have hb := budC_ge_mem n.sess n.mid (parOf sess n.sess).maxRtx l.q.nodes n hn rfl rfl
+  have hcnt := ((m_pdu_and_timeout_fixed now0 sess evs hs hin).1 n hn).2.2.1
+  have hso := m_single_outcome now0 sess evs hs hin n.sess n.mid
+  have hpos := pendC_pos_mem n.sess n.mid l.q.nodes n hn rfl rfl
+  rw [hacc, Nat.mul_one] at hbud
+  simp only [l] at hge hb hcnt hso hpos ⊢
+  rw [hacc] at hso
+  constructor
+  · omega
+  · omega
+
+open Coap.Sim Coap.Sched in
+/-- **m_giveup_exactly_max** (full — "… or MAX_RETRANSMIT retransmissions have been made"): in every punctual run, when a
+TOO_MANY_RETRIES NACK has been reported for a (session, mid) accepted by `coap_send` exactly once, that message has been
+transmitted exactly `MAX_RETRANSMIT + 1` times: once, and MAX_RETRANSMIT retransmissions — no fewer
+(`m_giveup_after_all_retransmissions`), no more (`m_at_most_max_retransmissions`). -/
+theorem m_giveup_exactly_max (now0 : Nat) (sess : List Msg.Sess) (evs : List Msg.Ev)
+    (hs : ∀ se ∈ sess, SessOk se) (hin : RunG (Msg.init now0 sess) evs) (hpu : Punctual (Msg.init now0 sess) evs) :
+    ∀ t s mid, Msg.Out.nack t s .retries mid true ∈ (Msg.run (Msg.init now0 sess) evs).out →
+      accC s mid (Msg.init now0 sess) evs = 1 →
+      txC s mid (Msg.run (Msg.init now0 sess) evs).out = (parOf sess s).maxRtx + 1 := by
+  intro t s mid hmem hacc
+  obtain ⟨t0, r, _, hall, _⟩ := m_giveup_after_all_retransmissions now0 sess evs hs hin hpu t s mid hmem
+  have hge := txC_ge s mid (parOf sess s).maxRtx _ _ hall
+  have hbud := m_at_most_max_retransmissions now0 sess evs hs hin s mid
+  rw [hacc, Nat.mul_one] at hbud
+  simp only [] at hbud
+  omega
+
+open Coap.Sim Coap.Sched in
+/-- non-vacuity of `m_transmissions_exactly` / `m_giveup_exactly_max` on the gated witness (MAX_RETRANSMIT 1): after 9
+events message 2 is pending with `retransmit_cnt = 1` and has been transmitted twice; message 1 was given up after
+exactly 2 transmissions -/
+example : (Msg.run (Msg.init 0 [{ maxRtx := 1 }]) (gevs.take 9)).q.nodes.map (fun n => (n.mid, n.cnt)) = [(2, 1)] ∧
+    accC 0 2 (Msg.init 0 [{ maxRtx := 1 }]) (gevs.take 9) = 1 ∧
+    txC 0 2 (Msg.run (Msg.init 0 [{ maxRtx := 1 }]) (gevs.take 9)).out = 2 ∧
+    RunG (Msg.init 0 [{ maxRtx := 1 }]) (gevs.take 9) ∧ Punctual (Msg.init 0 [{ maxRtx := 1 }]) (gevs.take 9) ∧
+    Msg.Out.nack 6000 0 .retries 1 true ∈ (Msg.run (Msg.init 0 [{ maxRtx := 1 }]) gevs).out ∧
+    txC 0 1 (Msg.run (Msg.init 0 [{ maxRtx := 1 }]) gevs).out = 2 := by decide
+
+/-- witness run over the wider alphabet: a NON in between, message 2 delayed by the NSTART gate, a response carrying
+token 1 cancels message 1 (which lets message 2 in at 500), message 2 is retransmitted at 3500 = 500 + 3000, a
+`coap_session_connected`, then an invalid-code ACK ends message 2 (NACK "bad response") -/
+def xevs : List Msg.Ev :=
+  [.submit 0 true 1 0, .submit 0 false 5 0, .submit 0 true 2 255, .setNow 500, .rxNon 0 77 1, .setNow 3500, .prepare,
+   .connect 0, .rxBad 0 2, .setNow 9000, .prepare]
+
+open Coap.Sim Coap.Sched in
+/-- non-vacuity of the section (7) theorems on the wider alphabet: the run is in `RunG` and punctual; both Confirmables
+are accepted once and concluded once without a TOO_MANY_RETRIES / RST NACK; the NON is not counted -/
+example : RunG (Msg.init 0 [{}]) xevs ∧ Punctual (Msg.init 0 [{}]) xevs ∧ ClockOk (Msg.init 0 [{}]) xevs ∧
+    accC 0 1 (Msg.init 0 [{}]) xevs = 1 ∧ remC 0 1 (Msg.init 0 [{}]) xevs = 1 ∧
+    accC 0 2 (Msg.init 0 [{}]) xevs = 1 ∧ remC 0 2 (Msg.init 0 [{}]) xevs = 1 ∧
+    accC 0 5 (Msg.init 0 [{}]) xevs = 0 ∧ txC 0 2 (Msg.run (Msg.init 0 [{}]) xevs).out = 2 ∧
+    Msg.Out.tx 3500 0 2 1 true ∈ (Msg.run (Msg.init 0 [{}]) xevs).out ∧ sched 500 3000 1 = 3500 := by decide
+
+/-! ### where punctuality comes from: sleeping no longer than the returned wait -/
+open Coap.Sim Coap.Sched in
+/-- **sleep_returned_wait_ok** (full): after every run over the C06 alphabet, let `coap_io_prepare_io` run and return the
+wait `w`; moving the clock to any `t ≤ now + w` does not move it past a pending deadline of any session (`m_due_fires`:
+nothing is due after the I/O step; `wait_le_every_deadline`: `w` does not exceed the time to any deadline — the
+32-bit reduction only makes it smaller).  This is `EvClock` for the `setNow` that follows. -/
+theorem sleep_returned_wait_ok (now0 : Nat) (sess : List Msg.Sess) (evs : List Msg.Ev)
+    (hs : ∀ se ∈ sess, SessOk se) (hin : RunG (Msg.init now0 sess) evs) :
+    let r := Msg.prepareCore (Msg.run (Msg.init now0 sess) evs)
+    ∀ t, t ≤ r.1.now + r.2 → ∀ e ∈ abs r.1.q, t ≤ e.deadline := by
+  intro r t ht e he
+  have h1 := m_due_fires now0 sess evs hs hin e he
+  have h2 := (wait_le_every_deadline (Msg.run (Msg.init now0 sess) evs)).1 e he
+  simp only [r] at ht
+  omega
+
+open Coap.Sim Coap.Sched in
+/-- **m_wait_exact_and_positive** (full — no busy loop, no oversleeping, in runs): after every run over the C06 alphabet,
+the wait `coap_io_prepare_io` returns while something is pending is exactly the time to the earliest pending deadline
+of all sessions whenever that fits the `unsigned int` result, and it is positive (the hypothesis `now < d` of
+`wait_le_earliest` is discharged by `m_due_fires`). -/
+theorem m_wait_exact_and_positive (now0 : Nat) (sess : List Msg.Sess) (evs : List Msg.Ev)
+    (hs : ∀ se ∈ sess, SessOk se) (hin : RunG (Msg.init now0 sess) evs) :
+    let r := Msg.prepareCore (Msg.run (Msg.init now0 sess) evs)
+    ∀ d, Spec.SQ.earliest (abs r.1.q) = some d → d - r.1.now < 4294967296 → r.2 = d - r.1.now ∧ 0 < r.2 := by
+  intro r d hd h32
+  have hlt : r.1.now < d := by
+    have hdf := m_due_fires now0 sess evs hs hin
+    simp only [] at hdf
+    generalize (Msg.prepareCore (Msg.run (Msg.init now0 sess) evs)).1 = l' at *
+    rcases l' with ⟨now, ⟨base, nodes⟩, ss, out⟩
+    rcases nodes with _ | ⟨h, rest⟩
+    · simp [abs, absFrom, Spec.SQ.earliest] at hd
+    · simp only [abs, absFrom, Spec.SQ.earliest, Option.some.injEq] at hd
+      have := hdf ⟨base + h.t, h.sess, h.mid, h.tok⟩ (by simp [abs, absFrom])
+      simp only [] at this ⊢
+      omega
+  exact (wait_le_earliest (Msg.run (Msg.init now0 sess) evs) d hd hlt).2 h32
+
+open Coap.Sim Coap.Sched in
+/-- non-vacuity of `m_wait_exact_and_positive`: after the first 6 events of the gated witness the earliest deadline
+after the I/O step is 9000, now = 6000, wait = 3000 -/
+example : let r := Msg.prepareCore (Msg.run (Msg.init 0 [{ maxRtx := 1 }]) (gevs.take 6))
+    Spec.SQ.earliest (abs r.1.q) = some 9000 ∧ 9000 - r.1.now < 4294967296 ∧ r.2 = 3000 := by decide
+
+open Coap.Sim Coap.Sched in
+/-- **punctual_of_clock** (full): a run over the C06 alphabet in which the clock is never moved past a pending
+deadline (`ClockOk` — by `sleep_returned_wait_ok` what an application gets that sleeps no longer than the wait the
+library returned and calls `coap_io_prepare_io` after each `coap_send`) is punctual: submissions, arrivals, I/O steps,
+the NSTART gate and the due loop themselves never leave an overdue node behind.  So `m_schedule_all`,
+`m_pending_on_schedule`, `m_giveup_after_all_retransmissions` hold for every such run. -/
+theorem punctual_of_clock (now0 : Nat) (sess : List Msg.Sess) (evs : List Msg.Ev)
+    (hs : ∀ se ∈ sess, SessOk se) (hin : RunG (Msg.init now0 sess) evs) (hck : ClockOk (Msg.init now0 sess) evs) :
+    Punctual (Msg.init now0 sess) evs :=
+  punctual_of_clockOk (P := fun _ _ _ => True) (gpar_of sess hs) evs _ (finv_init True _ now0 sess hs)
+    (fun _ e he => by simp [Msg.init, abs, absFrom] at he) hin hck (fun _ _ _ _ => trivial)
+
+open Coap.Sim Coap.Sched in
+/-- non-vacuity of `punctual_of_clock` / `sleep_returned_wait_ok`: the gated witness run never moves the clock past a
+pending deadline; after its first 5 events (I/O step at 2000) the wait is 4000 and the next deadline 6000 -/
+example : ClockOk (Msg.init 0 [{ maxRtx := 1 }]) gevs ∧
+    (let r := Msg.prepareCore (Msg.run (Msg.init 0 [{ maxRtx := 1 }]) (gevs.take 5))
+     r.1.now = 2000 ∧ r.2 = 4000 ∧ (abs r.1.q).map (·.deadline) = [6000]) := by decide
+
+/-! ## (8) no function of the model ever modifies a node's PDU fields or its stored timeout — whole alphabet, no scope -/
+open Coap.Pdu in
+/-- **pdu_and_timeout_never_modified_step** (byte identity / `T` drawn once, at full generality): for EVERY state of the
+message layer and EVERY event of the model — the whole alphabet of `Msg.Ev`: clock moves, `coap_send` of CON or NON,
+I/O steps, ACK, RST, NON response (cancel by token), invalid code, hold, connect, disconnect; no scope condition at all
+— every node that is in the send queue or in any session's delay queue after the step carries the fields standing for
+its PDU (message id, token, type) and the stored `timeout` of a node that was in the send queue or a delay queue before
+the step, or (for a `coap_send`) of the node that call builds (`timeout = coap_calc_timeout(…, r)` for a CON, 0 for a
+NON).  `coap_insert_node`, `coap_pop_next`, the removals, `coap_wait_ack`, `coap_retransmit` (re-queue AND the move to
+the delay queue), the delay-queue drain, cancel and disconnect only ever change `t`, `retransmit_cnt` and the session
+index. -/
+theorem pdu_and_timeout_never_modified_step (l : Msg.L) (ev : Msg.Ev) : ∀ n, InL (Msg.step l ev) n →
+    (∃ n', InL l n' ∧ pduOf n = pduOf n') ∨
+    (∃ s con mid r, ev = .submit s con mid r ∧ pduOf n = pduOf (fresh l s con mid r)) :=
+  step_pdu l ev
+
+open Coap.Pdu in
+/-- **pdu_and_timeout_never_modified** (whole runs): from ANY state, after ANY event list, every node in the send queue
+or in a delay queue has the PDU fields and the stored timeout of a node of the initial state or of the node built by a
+`coap_send` of the run (`Created`: with the session parameters at that moment and that call's PRNG byte) — `T` is
+drawn ONCE per message and what is retransmitted is what was submitted. -/
+theorem pdu_and_timeout_never_modified (l : Msg.L) (evs : List Msg.Ev) : ∀ n, InL (Msg.run l evs) n →
+    (∃ n0, InL l n0 ∧ pduOf n = pduOf n0) ∨ Created l evs n :=
+  run_pdu evs l
+
+/-- witness run outside every scope of sections (6)/(7): NSTART gate, hold (the retransmission of message 1 moves its node
+to the delay queue), connect (the drain lets message 2 in), a NON, a disconnect of another session -/
+def pevs : List Msg.Ev :=
+  [.submit 0 true 1 0, .submit 0 true 2 255, .submit 1 false 9 0, .hold 0, .setNow 2000, .prepare, .connect 0,
+   .disconnect 1, .setNow 5000, .prepare]
+
+open Coap.Pdu in
+/-- … at the end message 2 (retransmitted once) is in the send queue and message 1 (`retransmit_cnt = 1`) waits in the
+delay queue; both still have the PDU fields and the timeout (T = 3000, T = 2000) of their `coap_send` -/
+example : (Msg.run (Msg.init 0 [{}, {}]) pevs).q.nodes.map pduOf = [(2, 2, true, 3000)] ∧
+    ((Msg.run (Msg.init 0 [{}, {}]) pevs).getS 0).delayq.map pduOf = [(1, 1, true, 2000)] ∧
+    ((Msg.run (Msg.init 0 [{}, {}]) pevs).getS 0).delayq.map (·.cnt) = [1] := by decide
 
 end Coap.C06
